@@ -28,6 +28,7 @@ def run(ctx):
     c29.grammar_cells(ctx, dump, "x86_64", "C04.R2", narrow_arith=False)
     ctx.rule("C04.R8", "the destination of a read-modify-write instruction (shift, add, neg, ...) in a pattern is never one of the pattern's input registers", floor=30)
     c07.x86_destination_not_an_input(ctx, dump, "C04.R8")
+    c07.x86_rm_written(ctx, dump, "C04.R9")
     ctx.rule("C04.R5", "shift by cl: the count register is loaded immediately before the shift instruction that reads it implicitly", floor=20)
     c07.implicit_operand_windows(ctx, dump, "x86_64", "C04.R5")
     from .c05 import phi_lowering
